@@ -38,6 +38,7 @@ pub fn replay(args: &[String]) {
             Variant { name: "affine", p_total: 2, p_idx: 1, alpha: -2.5, beta: 7.0 },
             // location >> spread (integer-valued, so sums stay exact in f32): a one-pass variance cancels here
             Variant { name: "far", p_total: 2, p_idx: 1, alpha: 1.0, beta: 3000.0 },
+            Variant { name: "among-others", p_total: 8, p_idx: 5, alpha: 1.0, beta: 0.0 },
         ]
     } else {
         vec![
